@@ -63,6 +63,7 @@ func init() {
 			{Name: "isoforms", Run: runISOForms},
 			{Name: "isoyears", Run: runISOYears},
 			{Name: "reentrant", Run: runReentrant},
+			{Name: "reentrantctor", Run: runReentrantCtor},
 			{Name: "invalidroutes", Run: runInvalidRoutes},
 			{Name: "bigfields", Run: runBigFields},
 			{Name: "zones", Run: runZones},
@@ -90,6 +91,8 @@ func init() {
 		"c12-go-int-overflow":         'G',
 		"c12-setfullyear-localzero":   'L',
 		"c12-setter-int64-saturation": 'A',
+		"c12-fields-shortcircuit":     'U',
+		"c12-raw-year-month-limit":    'M',
 		"c12-settime-stays-nan":       'T',
 		"c12-iso-year-go-layout":      'I',
 		"c12-iso-invalid-nothrow":     'R',
@@ -278,6 +281,30 @@ const prelude = `
     case 7: switch (k) { case 0: return d.setTime(); default: return d.setTime(a); }
     }
   }
+  // argument conversion of Date.UTC (op 0) / new Date(...) (op 1): every argument an object whose valueOf logs
+  // "<index>;" and returns its number; the one at ppos throws instead.
+  global.__reentc = function(op, k, a0, a1, a2, a3, a4, a5, a6, a7, ppos) {
+    var log = "", vals = [a0, a1, a2, a3, a4, a5, a6, a7], args = [], r;
+    function mk(i) { return { valueOf: function() { log += i + ";"; if (i === ppos) throw marker; return vals[i]; } }; }
+    for (var i = 0; i < k; i++) args.push(mk(i));
+    try {
+      if (op === 0) r = v(Date.UTC.apply(Date, args));
+      else {
+        var o;
+        switch (k) {
+        case 2: o = new Date(args[0], args[1]); break;
+        case 3: o = new Date(args[0], args[1], args[2]); break;
+        case 4: o = new Date(args[0], args[1], args[2], args[3]); break;
+        case 5: o = new Date(args[0], args[1], args[2], args[3], args[4]); break;
+        case 6: o = new Date(args[0], args[1], args[2], args[3], args[4], args[5]); break;
+        case 7: o = new Date(args[0], args[1], args[2], args[3], args[4], args[5], args[6]); break;
+        default: o = new Date(args[0], args[1], args[2], args[3], args[4], args[5], args[6], args[7]); break;
+        }
+        r = v(o.getTime());
+      }
+    } catch (e) { r = e === marker ? "throw:marker" : "throw:" + (e && e.name); }
+    return log + "|" + r;
+  };
   // sequences: receiver built by ctor (0: new Date(c0), 1: new Date(c0, c1), 2: Date.prototype), then n <= 3
   // setter calls; after construction and after every call: return value, getTime, valueOf | fields | toISOString
   function snap(d, r) {
@@ -330,8 +357,8 @@ const prelude = `
 // state, so reuse cannot matter; the runtime is nevertheless replaced after
 // any error or Go panic.
 type machine struct {
-	vm                                                          *otto.Otto
-	inst, parse, rt, reent, seq, zinst, zset, fields, hist, und otto.Value
+	vm                                                                  *otto.Otto
+	inst, parse, rt, reent, reentc, seq, zinst, zset, fields, hist, und otto.Value
 }
 
 func newMachine() (*machine, error) {
@@ -341,7 +368,7 @@ func newMachine() (*machine, error) {
 	}
 	m := &machine{vm: vm, und: otto.UndefinedValue()}
 	var err error
-	for name, dst := range map[string]*otto.Value{"__inst": &m.inst, "__parse": &m.parse, "__rt": &m.rt, "__reent": &m.reent, "__seq": &m.seq, "__zinst": &m.zinst, "__zset": &m.zset, "__fields": &m.fields, "__hist": &m.hist} {
+	for name, dst := range map[string]*otto.Value{"__inst": &m.inst, "__parse": &m.parse, "__rt": &m.rt, "__reent": &m.reent, "__reentc": &m.reentc, "__seq": &m.seq, "__zinst": &m.zinst, "__zset": &m.zset, "__fields": &m.fields, "__hist": &m.hist} {
 		if *dst, err = vm.Get(name); err != nil || !dst.IsFunction() {
 			return nil, fmt.Errorf("prelude: %s missing", name)
 		}
